@@ -110,6 +110,9 @@ def lean_list(items):
     return '[' + ', '.join(items) + ']'
 
 
+BOOST = 3     # quick-tier stream multiplier when an anchored source file differs from the committed baseline
+
+
 class MachineryError(Exception):
     pass
 
@@ -141,9 +144,43 @@ class Check:
         self.known = [e for e in json.loads(KNOWN.read_text()).get('findings', [])
                       if e.get('property') == pid] if KNOWN.exists() else []
 
+        self.changed_sources = self._changed_sources()
+        self.notes['source_fingerprint'] = ('anchored source files identical to the committed baseline' if not self.changed_sources
+                                            else 'anchored source files differ from the committed baseline: %s -> quick stream sizes x%d'
+                                            % (', '.join(self.changed_sources), BOOST))
+
     # ------------------------------------------------------------------ scale helper
+    def _changed_sources(self):
+        """files this property is anchored in (properties.jsonl) whose content differs from harness/source_baseline.json,
+        looked up where the interpreter will import note_seq from (so a PYTHONPATH shadow copy counts)"""
+        try:
+            import importlib.util
+            base = json.loads((VERIF / 'harness' / 'source_baseline.json').read_text())
+            spec = importlib.util.find_spec('note_seq')
+            root = Path(list(spec.submodule_search_locations)[0]).parent
+            files = []
+            for l in (VERIF / 'properties.jsonl').read_text().splitlines():
+                if l.strip():
+                    pr = json.loads(l)
+                    if pr['id'] == self.pid:
+                        files = pr['anchors']['files']
+            out = []
+            # anchored files first, then every other source file of the package (constants, events_lib, … matter too)
+            for f in list(files) + sorted(set(base) - set(files)):
+                q = root / f
+                h = hashlib.sha256(q.read_bytes()).hexdigest() if q.exists() else 'missing'
+                if base.get(f) != h:
+                    out.append(f)
+            return out
+        except Exception:  # pylint: disable=broad-except
+            return []
+
     def n(self, quick, thorough):
-        return thorough if self.thorough else quick
+        if self.thorough:
+            return thorough
+        if self.changed_sources:
+            return max(quick, min(thorough, quick * BOOST))
+        return quick
 
     def subrng(self, name):
         h = int(hashlib.sha256(('%s/%s/%d' % (self.pid, name, self.seed)).encode()).hexdigest()[:12], 16)
